@@ -19,7 +19,7 @@ EXTRA = {
         "a cell-grid table block must have at least two rows and a string first cell for its name to be extracted; "
         "other shapes make the constructor fail (NotImplementedError / unbound local), modelled as such",
     ],
-    "explanation": "bundle_refines_spec / unique_spec / getitem_int_spec (Props/C20.lean) hold for every block list.",
+    "explanation": "bundle_refines_spec / unique_spec / getitem_int_spec / getitem_int_out_of_range / len_eq_iter_length (Props/C20.lean) hold for every block list.",
 }
 
 NAMES = ["a", "b", "tab", "é_1", "x*", "T", "t", "name", "df", "_x", "cafe\u0301", "caf\u00e9"]
